@@ -189,17 +189,21 @@ _POLICY = (" A violation is reported only on positive evidence (the shape the ru
            "recognised is recorded as `not decided` in the evidence. Before a finding is reported it is re-decided on normal forms of the tree (private helpers inlined, "
            "single-use locals folded, loops over literal tuples unrolled: sa/normalize.py), so that behaviour-preserving refactors do not fire.")
 _ADD = {
+    "C18": " R8: edges are identified through grouping.unique_rows / group_rows, never through a key packed by hand in the caller's index dtype.",
+    "C10": " R9: append_scenes - every container written by the node-renaming closure (remap table, names used by the current scene) is re-created or cleared for each appended scene.",
+    "C07": " R7: util.submesh keeps `vertices[unique(faces[index])]` on every path (value graph of the function with private helpers expanded) - the set visual.face_subset keeps per-vertex data for. R1's default inverse is decided per mask kind on the function specialised to a boolean / an integer mask; R3's colour funnels on the value graph.",
+    "C03": " O10: the centre-of-mass override is stored as the mesh's own copy (a copying constructor), never as the caller's array - followed through a private helper that does the store.",
     "C01": " R5 (normal transport in apply_transform) is decided on the value graph: the store is guarded by `not allclose(M[:3,:3], I)` and presence in the cache, every non-trivial alternative of its conformality guard contains allclose(L L^T / s, I), the stored value is unitize(transform_points(old normals, M, translate=False)).",
     "C02": " Overrides installed from a table of names after the class body (`for n in NAMES: setattr(TrackedArray, n, factory(n))`) are analysed as the function the factory returns with the name bound: the table is compared with numpy's in-place entry points (R1) and the flag store must dominate the looked-up ndarray call (R2).",
     "C04": " R7 also decides the identity shortcut of transform_points: a max-norm test of the whole matrix at <= 1e-8 (np.allclose / np.isclose with their default relative tolerance are reported). R4's flip guard is compared as normalised (atom, polarity) pairs. R10 treats det(M[:3,:3]) as s**3 (stub of the external call) whatever the locals are called.",
     "C05": " R4's winding verdict of graph.is_watertight is evaluated on a finite model (one group of two equal sorted edges whose end points are symbols compared only for equality): opposed twins -> consistent, same-direction twins -> inconsistent, a collapsed edge (x, x) twice -> consistent.",
-    "C06": " R9: an argsort applied to data already permuted by another argsort asks for a stable kind (two-pass two-key sorts). R8 finds the neighbour mask by role (what reaches np.nonzero).",
-    "C08": " R9: text exporters format numbers with significant digits (`g`, `e`), never with a fixed number of decimals.",
+    "C06": " R9: an argsort applied to data already permuted by another argsort asks for a stable kind (two-pass two-key sorts). R8 finds the neighbour mask by role (what reaches np.nonzero). R10 (package-wide): row identity is never established on a key packed by hand from two index columns in the array's own dtype (`a[:, 0] * n + a[:, 1]` under np.unique / argsort / searchsorted ...).",
+    "C08": " R9: text exporters format numbers with significant digits (`g`, `e`), never with a fixed number of decimals. R10: for every combination of optional blocks the PLY header declares, element by element, the fields of the packed record in the same order and with the same scalar types (container evaluation of export_ply: header template list vs dtype list handed to numpy).",
     "C11": " R13: in mesh_multiplane the normal handed to mesh_plane is unitized and the per-height plane origins and cached distances are built from that same unit normal.",
     "C12": " S / P are decided on SSA value graphs and expression templates (row alignment of the result arrays and of the distances used to pick the first hit). S2: every range test on barycentric coordinates covers all three coordinates. S3: hits are de-duplicated with a key that contains the ray index.",
     "C13": " N4: inside the run-length codecs an array allocated with the dtype of one operand does not receive another operand element-wise (silent narrowing of run values to the count type).",
-    "C15": " R9: Extrusion.area == 2 * area(profile) + |height| * total boundary length (holes included), Extrusion.volume == area(profile) * |height|, as terms of the value graph.",
-    "C16": " B2's axis re-ordering is decided by abstract interpretation in the domain of signed permutation matrices (sign, permutation) for each of the six orders of the extents, whether it is written inline or in a helper.",
+    "C15": " R9: Extrusion.area == 2 * area(profile) + |height| * total boundary length (holes included), Extrusion.volume == area(profile) * |height|, as terms of the value graph. R10: a hand-written diagonal placement matrix in creation.py has no single entry that can be negative (np.sign(x), a negative constant): it would be a mirror image. R4's refusal of non-rigid results is decided on path summaries.",
+    "C16": " B2's axis re-ordering is decided by abstract interpretation in the domain of signed permutation matrices (sign, permutation) for each of the six orders of the extents, whether it is written inline or in a helper. B5: dimension analysis of minimum_nsphere - comparisons against a non-zero constant are made on quantities of length exponent 0 (after the rescaling to a unit cube), quantities compared with each other have equal exponents, what is returned has exponent 1.",
     "C19": " T15: rotation_from_matrix - for R = Rodrigues(angle, unit axis d) and eigenvector d, each of the three magnitude branches hands (sin, cos) of the very angle to arctan2 (numpy.linalg.eig / where / real are stubbed so that the unit eigenvector is d).",
     "C20": " R6: every np.lib.stride_tricks.as_strided window over file bytes spans exactly the `count` its np.frombuffer base was created with (polynomial identity in the values read from the file), or an explicit test of that span against len(data) precedes it.",
 }
